@@ -86,6 +86,12 @@ public:
     }
   }
 
+  /// Whether entry \a i of link \a ln is the last registered one
+  bool IsLastRegistered(const BasicLink& ln, int i) const {
+    return !brl_.empty() && &brl_.back().b_ == &ln
+        && brl_.back().ir_.end_ == i+1;
+  }
+
   /// Want Export?
   bool GetExport() const { return bts_.IsOpen(); }
 
@@ -307,6 +313,10 @@ private:
 inline void
 BasicLink::RegisterLinkIndexRange(LinkIndexRange bir)
 { value_presolver_.Add( { *this, bir } ); }
+
+inline bool
+BasicLink::IsLastRegisteredLinkIndex(int i) const
+{ return value_presolver_.IsLastRegistered(*this, i); }
 
 } // namespace pre
 
